@@ -2,9 +2,18 @@
 
 package main
 
-// Model side of C37: filled in once the reader models of the media builders are merged.
-var c37CoqImports = []string{}
+import "fmt"
 
-const c37CoqRun = "(fun _ => VL [])"
+// Model side of C37: readers that have a Gallina model (coq/Check/C37.v).
+var c37CoqImports = []string{"Check.C37"}
 
-func c37CoqModel(in c37In) string { return "" }
+const c37CoqRun = "Check.C37.run"
+
+var c37Modelled = map[string]bool{"rtpdump": true, "h264": true, "h264sei": true, "h265": true, "h265sei": true}
+
+func c37CoqModel(in c37In) string {
+	if !c37Modelled[in.Reader] {
+		return ""
+	}
+	return fmt.Sprintf("(%s, %s, %d)", CoqString(in.Reader), CoqString(in.Hex), in.Chunk)
+}
